@@ -1,6 +1,7 @@
 package props
 
 import (
+	"errors"
 	"context"
 	"encoding/hex"
 	"fmt"
@@ -85,9 +86,15 @@ func runC16(s *core.Sim, tier string) RunInfo {
 	ctx := context.Background()
 	// tail requests beyond the network head are reported (wrap-around symptom)
 	beyond := uint64(0)
+	failNext := false // the next GetByHeight (the tail fetch of a Start) fails once
 	w.G.ByHeightFault = func(n int, h uint64) error {
 		if h > nh()+5 && beyond == 0 {
 			beyond = h
+		}
+		if failNext {
+			failNext = false
+			s.Fault("tail-fetch-fails-once")
+			return errors.New("getter: injected failure")
 		}
 		return nil
 	}
@@ -128,6 +135,36 @@ func runC16(s *core.Sim, tier string) RunInfo {
 		cycles++
 		at := map[string]string{"blockTime0": fmt.Sprint(p.blockTime == 0)}
 		var startErr error
+		if s.Tape.Coin("tail-fetch-fails", 1, 5) {
+			// the getter fails the first by-height request of this Start (the tail fetch, if one
+			// is made): Start may fail with that error - never panic - and the next Start works
+			failNext = true
+			var firstErr error
+			t, fin := s.Do("syncer-start-faulty", time.Hour, func() {
+				c, cancel := context.WithTimeout(ctx, 50*time.Minute)
+				defer cancel()
+				firstErr = w.Sy.Start(c)
+			})
+			hit := !failNext
+			failNext = false
+			if t.Panic != nil {
+				s.Violate("panic", map[string]string{"op": "Start", "blockTime0": fmt.Sprint(p.blockTime == 0)}, "Syncer.Start panicked when its tail request failed [%s] on chain first=%d head=%d (%s): %v\n%s", p.desc, first, nh(), shape, t.Panic, t.Stack)
+				break
+			}
+			if !fin {
+				s.Violate("hang", map[string]string{"op": "Start"}, "Syncer.Start did not return within a virtual hour after a failed tail request [%s]", p.desc)
+				break
+			}
+			hist = append(hist, fmt.Sprintf("  start with a failing tail request: hit=%v err=%v", hit, firstErr != nil))
+			if firstErr == nil {
+				// started all the same: stop it, the regular start below begins afresh
+				s.Do("syncer-stop", time.Hour, func() { _ = w.Sy.Stop(ctx) })
+			}
+			if err := w.NewSyncer(opts...); err != nil {
+				s.Aborted = "NewSyncer: " + err.Error()
+				break
+			}
+		}
 		t, fin := s.Do("syncer-start", time.Hour, func() {
 			c, cancel := context.WithTimeout(ctx, 50*time.Minute)
 			defer cancel()
